@@ -15,6 +15,7 @@ src/*.cpp, src/*.h it extracts, in source order and with the block structure
   * `std::move(X.halfedge_)`                               -> EMoveOut obj
   * creation of Impl objects: `Impl x;`, `make_shared<Impl>(...)` -> ENewFresh,
     `make_shared<Impl>(*y)`, `Impl x = *this`              -> ENewCopy y
+    (the SharedVec copy constructor deep-copies; only assignment shares)
   * calls of Manifold::Impl methods / free functions taking Impl objects
     (call graph)                                           -> ECall f [objs]
 
@@ -524,6 +525,13 @@ class Tr:
                             events.append((j, "new", nx, args, j + 2))
             j += 1
 
+        # ---- Impl copy ASSIGNMENT (implicit operator=: shares every SharedVec) is not used by the library today;
+        #      fail loudly if it appears:  *x = *y;   /  *this = other;
+        for j in range(lo + 1, hi - 3):
+            if toks[j][0] == "*" and toks[j + 2][0] == "=" and toks[j - 1][0] in (";", "{", "}", ")"):
+                lhs = toks[j + 1][0]
+                if (lhs in names and not str(lhs).startswith("ext:")) or (lhs == "this" and is_method):
+                    raise TranslateError("%s:%d Impl copy assignment '*%s = ...' shares halfedge buffers: not modelled" % (fn.file, toks[j][1], lhs))
         # ---- halfedge_ uses
         for j in range(lo + 1, hi):
             if toks[j][0] != "halfedge_": continue
@@ -975,8 +983,8 @@ def build(repo):
             missing.append(name); continue
         for i in idxs:
             if meta[i]["nparams"] != 1: continue
-            body = ["ENewCopy 0", "ECall %d [1]" % i]
-            lines.append("  (* %d <copy an Impl, then call %s on the copy> *)\n  mkFn 1 true [%s]" % (len(meta), R[i]["fn"].qual, "; ".join(body)))
+            body = ["ENewFresh", "EAssignShare 1 0", "ECall %d [1]" % i]
+            lines.append("  (* %d <Impl b; b = a (assignment shares the buffers); b.%s()> *)\n  mkFn 1 true [%s]" % (len(meta), R[i]["fn"].qual, "; ".join(body)))
             meta.append({"index": len(meta), "name": "<copy-then-call %s>" % R[i]["fn"].qual, "file": meta[i]["file"], "line": meta[i]["line"],
                          "entry": True, "nparams": 1, "objects": ["ext:any published Impl"], "body": body, "n_mu": 0, "n_write": 0, "n_calls": 1,
                          "synthetic": name})
@@ -1052,8 +1060,7 @@ def diagnose(meta):
             if k == "ENewFresh": af.append((True, True, True))
             elif k == "ENewCopy":
                 if e[1] >= len(af): return bad("bad object")
-                if af[e[1]] != B: af[e[1]] = (False, False, False)
-                af.append((False, False, False))
+                af.append((True, True, True))      # SharedVec copy constructor deep-copies
             elif k in ("EMakeUnique", "EAssignFresh"):
                 if e[1] >= len(af) or af[e[1]] == B: return bad("%s on a borrowed (published) Impl, object %d" % (k, e[1]))
                 af[e[1]] = (True, True, True)
